@@ -151,6 +151,7 @@ type ccState struct {
 	calls        []*ccCall
 	rx           []*rxRec
 	cur          map[int]*ccCall
+	bySerial     map[uint32]*ccCall // request serial -> call (a transmission may come from a helper goroutine)
 	serial       uint32
 	gates        []*Gate
 	gatesOpenSeq int
@@ -291,7 +292,12 @@ func (st *ccState) doCall(ci int, sp callSpec, attempt int) *ccCall {
 	p := st.cfg.p
 	c := &ccCall{id: len(st.calls), caller: ci, spec: sp, attempt: attempt}
 	st.calls = append(st.calls, c)
-	c.req, c.reqWire = p.BuildRequest(sp.xid, st.nextSerial())
+	rs := st.nextSerial()
+	c.req, c.reqWire = p.BuildRequest(sp.xid, rs)
+	if st.bySerial == nil {
+		st.bySerial = map[uint32]*ccCall{}
+	}
+	st.bySerial[rs] = c
 	if sp.mk == mkGated {
 		c.gate = NewGate(s, fmt.Sprintf("m%d", c.id))
 		if st.gatesOpenSeq != 0 {
@@ -387,9 +393,20 @@ func (st *ccState) matcher(c *ccCall, m interface{}) bool {
 	return v
 }
 
+// callOf attributes a transmission to a call: by the serial the harness put into
+// the request, else by the task that is transmitting.
+func (st *ccState) callOf(b []byte) *ccCall {
+	if in := st.cfg.p.Inspect(b); in.Decodes && in.Serial != 0 {
+		if c := st.bySerial[in.Serial]; c != nil {
+			return c
+		}
+	}
+	return st.cur[st.s.CurTask()]
+}
+
 func (st *ccState) writeErr(b []byte, to net.Addr) error {
 	s := st.s
-	c := st.cur[s.CurTask()]
+	c := st.callOf(b)
 	if c == nil {
 		return nil
 	}
@@ -408,9 +425,9 @@ func (st *ccState) onWrite(b []byte, to net.Addr) {
 	s := st.s
 	cfg := st.cfg
 	p := cfg.p
-	c := st.cur[s.CurTask()]
+	c := st.callOf(b)
 	if c == nil {
-		s.Violate("harness", "WriteTo from a task with no call in progress")
+		s.Probe("transmission-not-attributable-to-a-call")
 		return
 	}
 	tx := &txRec{t: s.Now()}
